@@ -49,8 +49,8 @@ def tasks(tier, seed):
     quick = tier == 'quick'
     nodes = ['LEGENDRE', 'EQUID'] if quick else cm.NODE_TYPES
     for kind, qds in (('generic_implicit', [('IE',), ('LU',), ('MIN-SR-S',), ('PIC',)] if quick else [(q,) for q in ['IE', 'LU', 'MIN-SR-S', 'MIN-SR-NS', 'PIC', 'Qpar', 'GS', 'TRAP', 'MIN']]),
-                      ('explicit', [('EE',), ('PIC',)]),
-                      ('imex_1st_order', [('IE', 'EE'), ('LU', 'EE')] if quick else [('IE', 'EE'), ('LU', 'EE'), ('LU', 'PIC'), ('MIN-SR-S', 'EE')])):
+                      ('explicit', [('EE',), ('PIC',), ('LF',)]),
+                      ('imex_1st_order', [('IE', 'EE'), ('LU', 'EE'), ('LU', 'LF')] if quick else [('IE', 'EE'), ('LU', 'EE'), ('LU', 'PIC'), ('MIN-SR-S', 'EE'), ('LU', 'LF'), ('IE', 'LF')])):
         for nt in nodes:
             for qt in cm.QUAD_TYPES:
                 for M in ([1, 2, 3] if quick else [1, 2, 3, 4, 5]):
@@ -59,7 +59,7 @@ def tasks(tier, seed):
                     if quick and nt == 'EQUID' and (qt != 'RADAU-RIGHT' or M != 3):
                         continue
                     for qd in qds:
-                        if quick and qt in ('GAUSS', 'RADAU-LEFT') and (qd[0] not in ('LU', 'EE') or M == 1):
+                        if quick and qt in ('GAUSS', 'RADAU-LEFT') and (qd[0] not in ('LU', 'EE') or qd[-1] == 'LF' or M == 1):
                             continue
                         Ks = [1, 2, 3, 4] if quick else list(range(1, min(7, 2 * M + 2) + 1))
                         if kind == 'imex_1st_order':
